@@ -392,10 +392,7 @@ func c20RefLeaves(data []byte) (flat map[string]string, dup, empty bool, err err
 			if key == "" {
 				empty = true
 			}
-			path := key
-			if parent != "" {
-				path = parent + "." + key
-			}
+			path := parent + key // parent = dotted path of the enclosing object followed by "." ("" for the document)
 			vt, e := dec.Token()
 			if e != nil {
 				return e
@@ -403,7 +400,7 @@ func c20RefLeaves(data []byte) (flat map[string]string, dup, empty bool, err err
 			switch x := vt.(type) {
 			case json.Delim:
 				if x == '{' {
-					if e := obj(path); e != nil {
+					if e := obj(path + "."); e != nil {
 						return e
 					}
 				} else if e := skip(); e != nil {
